@@ -758,7 +758,7 @@ fn catalogue_inner(prop: &str, t: Tier, seed: u64, out: &mut Vec<Entry>) {
             let mut en = e("prepared/doublings".into(), t, "the SRS (symbolic)", "first 12 and last 4 of 255 doublings".into(), move || c09::prepared(seed)); en.funcs = f.clone(); out.push(en);
         }
         "C10" => {
-            let f = vec!["MarlinKZG10::check", "Marlin::accumulate_commitments_and_values", "kzg10::KZG10::check", "SonicKZG10::{check,accumulate_elems,check_elems}", "MarlinPST13::check", "InnerProductArgPC::{check,succinct_check}", "SuccinctCheckPolynomial::{evaluate,compute_coeffs}", "HyraxPC::check", "LinearCodePCS::check", "get_indices_from_sponge", "calculate_t", "kzg10::KZG10::batch_check", "MultilinearPC::check"];
+            let f = vec!["MarlinKZG10::check", "Marlin::accumulate_commitments_and_values", "kzg10::KZG10::check", "SonicKZG10::{check,accumulate_elems,check_elems}", "MarlinPST13::check", "InnerProductArgPC::{check,succinct_check}", "SuccinctCheckPolynomial::{evaluate,compute_coeffs}", "HyraxPC::check", "LinearCodePCS::check", "get_indices_from_sponge", "calculate_t", "kzg10::KZG10::batch_check", "MultilinearPC::check", "streaming_kzg::VerifierKey::{verify,verify_multi_points}"];
             let quick = t == Tier::Quick;
             let symtxt = "polynomial (1-polynomial shapes), point, challenges, blinding, and the replaced component (a fresh symbolic element of its type)";
             let mut add = |id: String, bounds: String, run: Box<dyn Fn() -> Verdict>| {
@@ -818,6 +818,10 @@ fn catalogue_inner(prop: &str, t: Tier, seed: u64, out: &mut Vec<Entry>) {
                 add(format!("kzg10/check-c{}", which), "max_degree 3, 2 coefficients, hiding 1".into(), Box::new(move || c10::kzg10(which, false, seed)));
                 add(format!("kzg10/batch-c{}", which), "max_degree 3, 2 proofs (hiding 1 and none), 2 coefficients".into(), Box::new(move || c10::kzg10(which, true, seed)));
                 add(format!("mlpst/c{}", which), "2 variables".into(), Box::new(move || c10::mlpst(which, seed)));
+            }
+            for which in 0..=4usize {
+                add(format!("streaming/verify-c{}", which), "max_degree 4, 2 coefficients".into(), Box::new(move || c10::streaming(which, false, seed)));
+                add(format!("streaming/multi-c{}", which), "max_degree 4, 2 points, 2 polynomials (2 and 3 coefficients)".into(), Box::new(move || c10::streaming(which, true, seed)));
             }
         }
         "C11" => {
